@@ -431,7 +431,8 @@ func TestC12(t *testing.T) {
 				map[string]any{"fault_point": lastK, "panic": first, "stack": c09HeadS(msg, 3000), "ops": c10WitnessOps(cs.Ops), "minCompactSize": cs.Th, "rejoin": cs.Rejoin})
 			start = lastK + 1
 		}
-		r.Eval(1)
+		r.Eval(points) // one evaluation = one run of a history with one fault point failed
+		r.Count("histories", 1)
 		r.Count("file_operations_that_are_fault_points", total)
 		if total > 0 && points >= total {
 			r.Count("histories_with_every_fault_point_run", 1)
